@@ -15,7 +15,8 @@ EXAMPLES = {"quick": 1600, "thorough": 40000}
 RULE = ("Generated: (raw) problems with 1-12 variables and 0-14 rows of all four classes U/L/S/N together, small "
         "integer coefficients, dyadic bounds, rows built around a hidden point (slack or tight) or made infeasible by a "
         "contradicting pair with margin 1; mapping with duplicated rows; 'bool' column absent / all False / mixed / NaN "
-        "for LP-only rows; booleans with bounds [0,1], [0,0] or [1,1]; (portfolio) assembled LP and MIP problems of "
+        "for LP-only rows; booleans with bounds [0,1], [0,0], [1,1] and non-0/1 bounds ([-0.5,1.5], [0,0.75], [0.25,1], [-1,2], [1.25,1.5], [-1,-0.5]); "
+        "in 20% the problem object is edited in place (row type, coefficient or right-hand side) and optimised again; (portfolio) assembled LP and MIP problems of "
         "generated portfolios, monolithic and split; x solver in {default, CLARABEL, SCIPY, SCIP}; make_soft_problem "
         "on MIPs. Oracle: if Results: bounds, every row by its class, integrality of flagged variables, value = -c.x, "
         "|value - V*| <= tol with V* from scipy-HiGHS on the same arrays; if 'not successful': HiGHS proves "
@@ -42,8 +43,10 @@ def _raw(draw):
     l, u, x0 = [], [], []
     for j in range(n):
         if isb[j]:
-            lo, hi = draw(st.sampled_from([(0, 1), (0, 1), (0, 1), (0, 0), (1, 1)]))
-            x = draw(st.integers(lo, hi))
+            lo, hi = draw(st.sampled_from([(0, 1), (0, 1), (0, 1), (0, 0), (1, 1), (-0.5, 1.5), (0, 0.75), (0.25, 1),
+                                           (-1, 2), (1.25, 1.5), (-1, -0.5)]))
+            ok = [v for v in (0, 1) if lo <= v <= hi]
+            x = draw(st.sampled_from(ok)) if ok else 0
         else:
             lo = draw(gen.dyadic(-4, 2))
             hi = lo + draw(gen.dyadic(0, 6))
@@ -68,7 +71,11 @@ def _raw(draw):
                   "kind": draw(st.sampled_from(["UL", "SN", "bound"]))}
     c = [draw(gen.dyadic(-4, 4)) for _ in range(n)]
     dup = draw(st.lists(st.integers(0, n - 1), max_size=4))
-    return {"kind": "raw", "n": n, "c": c, "l": l, "u": u, "x0": x0, "isbool": isb, "rows": rows, "contra": contra,
+    edit = None
+    if m and draw(st.integers(0, 4)) == 0:
+        # the same problem object is optimised, edited in place and optimised again
+        edit = {"row": draw(st.integers(0, m - 1)), "what": draw(st.sampled_from(["type", "coef", "rhs"]))}
+    return {"kind": "raw", "n": n, "c": c, "l": l, "u": u, "x0": x0, "isbool": isb, "rows": rows, "contra": contra, "edit": edit,
             "boolmode": boolmode, "dup": dup, "solver": draw(st.sampled_from(SOLVERS_MIP if mip else SOLVERS_LP)),
             "soft": mip and draw(st.integers(0, 5)) == 0}
 
@@ -226,6 +233,25 @@ def check(spec):
                       solver=solver)
         out.label("mip" if mip else "lp", "boolmode:" + spec["boolmode"], "dup_rows" if spec["dup"] else None,
                   "soft" if spec.get("soft") else None, "ref:" + str(stref))
+        if spec.get("edit") and op.A is not None and not out.violations:
+            # history on the problem object: edit one row in place and optimise the same object again
+            e = spec["edit"]
+            i = e["row"] % len(op.cType)
+            if e["what"] == "type":
+                flip = {"U": "L", "L": "U", "S": "U", "N": "L"}[op.cType[i]]
+                op.cType = op.cType[:i] + flip + op.cType[i + 1:]
+            elif e["what"] == "coef":
+                op.A = op.A.tolil()
+                nz = op.A.rows[i]
+                if nz:
+                    op.A[i, nz[0]] = op.A[i, nz[0]] * -2.0
+            else:
+                op.b = np.asarray(op.b, float)
+                op.b[i] = op.b[i] + (1.0 if op.cType[i] == "U" else -1.0)
+            res2 = eao_call(op.optimize, **kw)
+            judge(out, op, res2, bools, "raw problem edited in place (%s of row %d) and optimised again" % (e["what"], i),
+                  mip and not spec.get("soft"), soft=spec.get("soft", False), solver=solver)
+            out.label("edited_and_reoptimised")
         nt = False
         if stref == "infeasible":
             nt = True
